@@ -264,19 +264,32 @@ fn shard(seed: u64, shard: u64, shards: u64, tier: Tier) -> Tally {
         let len = r.usize_below(41);
         let style = r.below(STYLES as u64) as u8;
         let s = secret_of_len(&mut r, len, style);
-        let region = match r.below(6) {
+        let region = match r.below(8) {
             0 => "r".repeat(1024),
             1 => String::new(),
+            2 | 3 | 4 => scope_text(&mut r),
             _ => r.pick(&REGION_POOL).to_string(),
         };
-        let service = match r.below(6) {
+        let service = match r.below(8) {
             0 => "ü".repeat(300),
             1 => String::new(),
+            2 | 3 | 4 => scope_text(&mut r),
             _ => r.pick(&crate::gen::SERVICES).to_string(),
         };
         chain(&mut t, &s, y, m, d, &region, &service);
     }
     t
+}
+
+/// Arbitrary region / service text: pieces that are meaningful to an enclosing syntax (the credential scope's '/',
+/// the terminator, the other components' usual values, separators, upper case, white space, NUL, non-ASCII).
+fn scope_text(r: &mut Rng) -> String {
+    let pieces = [
+        "/", "/", "aws4_request", "us-east-1", "s3", "US-EAST-1", "S3", "a", "Z", "0", "-", "_", ".", " ", "\t", "\n", "\u{0}", "%2F", "%", "+", ":", ";", ",", "=", "AWS4", "é", "ß", "İ", "\u{1F600}",
+        "20150830",
+    ];
+    let n = 1 + r.usize_below(5);
+    (0..n).map(|_| *r.pick(&pieces)).collect()
 }
 
 pub fn run(tier: Tier) -> i32 {
@@ -303,7 +316,7 @@ pub fn run(tier: Tier) -> i32 {
     ctx.exhaustive("every calendar day of the listed years", true);
     let rep = Report {
         level: "exploration",
-        rule: "Direct calls of the key API under panic capture: KSecretKey::<M>::from_str for 11 capacities × every byte length 0…M+8 × 5 contents (ASCII run, random base64-like, multi-byte UTF-8, ASCII white space / control characters at the edges and inside, Unicode white space or case-mapping letters at the end); for the default capacity every secret length 0–40 and every calendar day of years 1, 2000, 2024, 9999 (thorough: also 4, 999, 1000, 1900, 2023, 2100) plus random days in 1–9999, regions/services incl. empty, 1 KiB, multi-byte, embedded NUL/newline; all 10 derivation routes compared with an independent HMAC-SHA256 chain, read-back of the secret, copy equality. Distinct = distinct (secret, date, region, service) tuples whose 10 routes all matched, plus distinct (capacity, length, content) probes decided correctly.".into(),
+        rule: "Direct calls of the key API under panic capture: KSecretKey::<M>::from_str for 11 capacities × every byte length 0…M+8 × 5 contents (ASCII run, random base64-like, multi-byte UTF-8, ASCII white space / control characters at the edges and inside, Unicode white space or case-mapping letters at the end); for the default capacity every secret length 0–40 and every calendar day of years 1, 2000, 2024, 9999 (thorough: also 4, 999, 1000, 1900, 2023, 2100) plus random days in 1–9999, regions/services incl. empty, 1 KiB, multi-byte, embedded NUL/newline, and arbitrary text built from pieces meaningful to the enclosing credential-scope syntax ('/', the terminator, the other components' values, separators, upper case); all 10 derivation routes compared with an independent HMAC-SHA256 chain, read-back of the secret, copy equality. Distinct = distinct (secret, date, region, service) tuples whose 10 routes all matched, plus distinct (capacity, length, content) probes decided correctly.".into(),
         assumptions: vec!["the harness's own SHA-256/HMAC (self-tested on FIPS 180-4 / RFC 4231 vectors and the AWS key-derivation example)".into()],
         extra: J::obj().set("calibrated_vectors", J::i(pre.unwrap_or(0) as i64)),
     };
